@@ -16,7 +16,7 @@ from kplus import Inconclusive
 
 VERIF = os.path.dirname(os.path.dirname(os.path.abspath(__file__)))
 SCRATCH = os.environ.get("VERIF_SCRATCH", "/var/tmp/selium-verif")
-CACHE = os.path.join(VERIF, ".cache")          # build caches (git-ignored); rebuilt incrementally from /repo
+CACHE = os.environ.get("VERIF_CACHE_DIR", os.path.join(VERIF, ".cache"))   # build caches (git-ignored); rebuilt incrementally from /repo
 KANI_DIR = os.path.join(VERIF, "engines", "kani")
 MEM_BUDGET_GB = int(os.environ.get("VERIF_MEM_GB", "44"))
 
@@ -180,6 +180,18 @@ def run_kani_obligation(ob, meta, workroot, budget, keep):
         if ob.replace and len(res["replaced"]) == 0:
             raise Inconclusive("goto-level stubs requested but no call was redirected (callee names changed?)")
         res["goto"] = goto
+        try:
+            # functions of the code under test that are part of this obligation's encoding
+            rc_, listing, _ = kplus.run(["goto-instrument", "--list-goto-functions", goto], 120)
+            fns = set()
+            for pn, mangled, nobody in re.findall(r"^(.*?) /\* (\S+?)(,? body not available)? \*/\s*$", listing or "", re.M):
+                if nobody:
+                    continue
+                if re.search(r"selium|topic::(pubsub|reqrep)|real_router::|backoff_strategy", pn) and not re.search(r"^(mock|model|sink::|sink_router::|shim_world)", pn):
+                    fns.add(pn[:160])
+            res["functions"] = sorted(fns)[:60]
+        except Exception:
+            pass
         try:
             pretty0 = json.load(open(meta["symtab"].replace(".symtab.out", ".pretty_name_map.json")))
         except Exception:
